@@ -36,6 +36,7 @@ from rustfun_tr import Translator  # noqa: E402
 
 FILES = ["src/bytes.rs", "src/raw/mod.rs", "src/raw/crc32.rs", "src/raw/node.rs", "src/automaton/mod.rs", "src/raw/ops.rs"]
 PINNED_PATH = os.path.join(HERE, "srcfuns_pinned.v")
+LAST_DECLS = {}
 
 ANY_POS = [("start", "node.start", "usize"), ("v", "self.0", "u8"), ("sizes", "node.sizes", "PackSizes"),
            ("ntrans", "node.ntrans", "usize"), ("version", "node.version", "u64")]
@@ -148,6 +149,11 @@ def split_pinned(txt):
     return out, order
 
 
+def split_pinned_decls(txt):
+    """pinned file -> {inductive name: declaration text}"""
+    return {m.group(1): m.group(0).rstrip("\n") for m in re.finditer(r"^Inductive (src_\w+)[^\n]*\n(?:  \|[^\n]*\n?)+", txt, re.M)}
+
+
 def deps_of(text, names):
     body = text.split(":=", 1)[1]
     return [n for n in names if re.search(r"\b%s\b" % re.escape(n), body)]
@@ -206,6 +212,39 @@ def generate(repo, root, use_pinned_for=(), pin=False):
             status[n] = status.get(n, "fallback_to_pinned: not reached in the current source")
             if not status[n].startswith("fallback"):
                 status[n] = "fallback_to_pinned: " + status[n]
+    # enums: the declarations of the pinned revision are always present; when the source's enum differs from the
+    # pinned one, every function that mentions it falls back (pinned and current constructors cannot be mixed)
+    pdecls = {} if pin or not os.path.exists(PINNED_PATH) else split_pinned_decls(open(PINNED_PATH).read())
+    cdecls = {}
+    for d in tr.enum_decls():
+        cdecls[re.match(r"Inductive (src_\w+)", d).group(1)] = d
+    decls = dict(cdecls)
+    for dn, dt in pdecls.items():
+        if dn in cdecls and cdecls[dn].strip() != dt.strip():
+            for n in list(texts):
+                if re.search(r"\b%s\b" % dn, texts[n]):
+                    if n in pinned:
+                        texts[n], types[n] = pinned[n][1], pinned[n][0]
+                        status[n] = "fallback_to_pinned: the enum %s of the source differs from the pinned one" % dn[4:]
+                    else:
+                        del texts[n]
+                        status.pop(n, None)
+        decls[dn] = dt if (dn not in cdecls or cdecls[dn].strip() != dt.strip()) else cdecls[dn]
+    # a kept function must not refer to a dropped helper
+    changed_ = True
+    while changed_:
+        changed_ = False
+        for n in list(texts):
+            for ref in set(re.findall(r"\bsrc_fn_\w+", texts[n].split(":=", 1)[1])):
+                if ref not in texts and ref not in pinned:
+                    if n in pinned and texts[n] != pinned[n][1]:
+                        texts[n], types[n] = pinned[n][1], pinned[n][0]
+                        status[n] = "fallback_to_pinned: calls %s, which is not available" % ref
+                    else:
+                        del texts[n]
+                        status.pop(n, None)
+                    changed_ = True
+                    break
     missing = [n for n in status if status[n].startswith("fallback") and n not in texts]
     if missing:
         raise SystemExit("rustfun: no translation and no pinned text for: " + "; ".join("%s (%s)" % (n, status[n]) for n in missing))
@@ -234,8 +273,10 @@ def generate(repo, root, use_pinned_for=(), pin=False):
             "   usize and u64 are 64 bit; `as` to a narrower type truncates; results that cannot panic are plain N / bool / option N. *)",
             "From Coq Require Import NArith List Bool.", "Require Import FstV.Base FstV.SrcFunBase FstV.Generated.SrcParams.", "Open Scope N_scope.", "",
             "(* ranges, enumerate, option equality and the record of a component automaton come from SrcFunBase.v *)", ""]
-    for d in tr.enum_decls():
-        head.append(d)
+    global LAST_DECLS
+    LAST_DECLS = decls
+    for dn in sorted(decls):
+        head.append(decls[dn])
         head.append("")
     body = []
     for n in order:
@@ -269,7 +310,7 @@ def main():
             sys.exit(1)
         open(PINNED_PATH, "w").write("(* pinned translation of the pinned revision of /repo (tools/rustfun.py --pin); fragments per function,\n"
                                      "   used as fallback text when a function cannot be located or translated *)\n\n" +
-                                     "\n\n".join(texts[n] for n in order) + "\n")
+                                     "\n\n".join([LAST_DECLS[dn] for dn in sorted(LAST_DECLS)] + [texts[n] for n in order]) + "\n")
     os.makedirs(os.path.dirname(out), exist_ok=True)
     if not os.path.exists(out) or open(out).read() != txt:
         open(out, "w").write(txt)
